@@ -5,8 +5,9 @@
 //! both the returned and the caller-buffer path) and VecDeque (iterator body when returned, index body
 //! with a caller buffer).  Two kinds of cases:
 //!   * batch: one series, one function, one configuration; EVERY window 1..=len+2 and EVERY min_periods
-//!     (omitted, 0..=w); cells of the runs concatenated, a separator after each (comparator custom:batch
-//!     decodes a differing cell back to (w, min_periods, position));
+//!     (omitted, 0..=w): per window the min_periods = 0 run in full, a separator, then one summary cell per
+//!     other min_periods (see `batch`; comparator custom:batch decodes a difference back to
+//!     (w, min_periods, position));
 //!   * single: one (w, min_periods) — used for the longer random series.
 use std::collections::VecDeque;
 
@@ -339,7 +340,7 @@ fn main() {
                     if *small { "all".to_string() } else { match mp { None => "omitted".into(), Some(0) => "0".into(), Some(m) if m == w => "w".into(), _ => "mid".to_string() } },
                     nulls * 4 / len.max(1), stags, gen_::bucket(rs), gen_::bucket(rsn), gen_::bucket(alln));
                 let desc = |ty: &str, be: &str, data: String| if *small {
-                    format!("fn={} ty={} be={} BATCH(w=1..={}, mp=None,0..=w; cells: runs in that order, each followed by a separator) xs={}", FNS[fi], ty, be, len + 2, data)
+                    format!("fn={} ty={} be={} BATCH(every w=1..={}, every mp: per w the mp=Some(0) run, a separator, then one mask cell for mp=None,Some(1)..=Some(w)) xs={}", FNS[fi], ty, be, len + 2, data)
                 } else {
                     format!("fn={} ty={} be={} w={} mp={:?} xs={}", FNS[fi], ty, be, w, mp, data)
                 };
